@@ -36,7 +36,7 @@ EXPLANATION = 'theorems about the model of the OrderBook builder and the order r
 
 
 def scenarios(seed, tier):
-    n = 320 if tier == 'quick' else 3500
+    n = 640 if tier == 'quick' else 3840
     rnd = random.Random(seed * 7919 + 20)
     for i in range(n):
         yield 'ob%d' % i, OB.gen_case(random.Random(rnd.getrandbits(48)), with_portfolio=(rnd.random() < 0.5))
